@@ -204,4 +204,17 @@ theorem stranded_stays (o : Outs) (s : RW) (l : List Op) (hl : ∀ op ∈ l, op 
       · simp only [step, onResetStream]; split <;> exact ⟨rfl, rfl, rfl, rfl⟩
     exact ⟨ih'.1.trans hs.1, ih'.2.1.trans hs.2.1, ih'.2.2.1.trans hs.2.2.1, ih'.2.2.2.trans hs.2.2.2⟩
 
+/-! ### the view of a state of the downstream machine (kept free of the machine's types: only its flags and its count of
+access-log events, so that the machine's files are not imported here) -/
+
+/-- the write path's view of a downstream-machine state: its flags, and one `clean` event per access-log event of its trace -/
+def viewOf (procDone cleaned downReset downLive : Bool) (nLog : Nat) : RW :=
+  { procDone := procDone, cleaned := cleaned, downReset := downReset, downLive := downLive,
+    active := 1 - (nLog : Int), listed := !cleaned, ev := List.replicate nLog Ev.clean }
+
+theorem viewOf_inv (procDone cleaned downReset downLive : Bool) (n : Nat) (h : n = if cleaned then 1 else 0) :
+    CleanInv (viewOf procDone cleaned downReset downLive n) := by
+  subst h
+  cases cleaned <;> exact ⟨rfl, rfl, rfl⟩
+
 end MosnVerif.Model.ReplyWrite
